@@ -663,6 +663,20 @@ CORPUS_DIFF = [
     ("single_qubit_fusion", [0], lambda: [qp.SX(0), qp.Barrier(wires=[0])], {"atol": 1e-8, "exclude": None, "corpus": "fusion-single-wire-barrier"}, lambda t: T.single_qubit_fusion(t)),
     ("commute_controlled", [0, 1, 2], lambda: [qp.PauliX(1), qp.CNOT([0, 1]), qp.PauliZ(1), qp.CNOT([1, 2]), qp.S(0), qp.CZ([0, 2]), qp.RX(math.pi / 2, 2), qp.Toffoli([0, 1, 2])],
      {"direction": "right", "corpus": "x-z-through-cnot"}, lambda t: T.commute_controlled(t)),
+    # shortcut branches of fuse_rot_angles (one of the two rotations has no Y part; only the other, or both)
+    ("merge_rotations", [0], lambda: [qp.Rot(0.3, 0.0, 0.9, wires=0), qp.Rot(0.2, 0.7, -0.4, wires=0)],
+     {"atol": 1e-8, "include": None, "corpus": "rot-noY-then-Y"}, lambda t: T.merge_rotations(t)),
+    ("merge_rotations", [0], lambda: [qp.Rot(0.2, 0.7, -0.4, wires=0), qp.Rot(0.3, 0.0, 0.9, wires=0), qp.Rot(0.5, 0.0, -0.2, wires=0), qp.Rot(-0.1, 0.0, 0.6, wires=0)],
+     {"atol": 1e-8, "include": None, "corpus": "rot-Y-then-noY"}, lambda t: T.merge_rotations(t)),
+    ("single_qubit_fusion", [0, 1], lambda: [qp.Rot(0.3, 0.0, 0.9, wires=0), qp.RY(0.7, wires=0), qp.RZ(0.4, wires=1), qp.S(1), qp.RY(1.1, wires=1), qp.T(1)],
+     {"atol": 1e-8, "exclude": None, "corpus": "fusion-noY-then-Y"}, lambda t: T.single_qubit_fusion(t)),
+    ("single_qubit_fusion", [0, 1], lambda: [qp.CNOT([0, 1]), qp.Rot(0.5, 1.1, 0.8, wires=1), qp.Rot(-0.8, -1.1, 1.3, wires=1), qp.Hadamard(1), qp.CNOT([1, 0])],
+     {"atol": 1e-8, "exclude": None, "corpus": "fusion-cancelling-Y"}, lambda t: T.single_qubit_fusion(t)),
+    # leftward pushes over more than one controlled gate (the search for the next gate runs on the reversed prefix)
+    ("commute_controlled", [0, 1, 2], lambda: [qp.CZ([1, 2]), qp.CNOT([1, 0]), qp.CZ([0, 2]), qp.PauliZ(0)],
+     {"direction": "left", "corpus": "left-two-hops"}, lambda t: T.commute_controlled(t, direction="left")),
+    ("commute_controlled", [0, 1, 2], lambda: [qp.CRY(0.4, [0, 1]), qp.Toffoli([0, 1, 2]), qp.CNOT([2, 0]), qp.S(0), qp.PauliX(2), qp.RZ(0.3, 1)],
+     {"direction": "left", "corpus": "left-mixed"}, lambda t: T.commute_controlled(t, direction="left")),
 ]
 
 
